@@ -59,19 +59,6 @@ var vfc29Views = []struct {
 	{"V_aged", -time.Hour},        // every present deletion mark effective (age > -1h holds for any mark not from the future)
 }
 
-// vfc29Complete reports whether every file listed in the block's meta is present in the bucket.
-func vfc29Complete(objs map[string][]byte, m *metadata.Meta) bool {
-	for _, f := range m.Thanos.Files {
-		if f.RelPath == "" || f.RelPath == "meta.json" {
-			continue
-		}
-		if _, ok := objs[m.ULID.String()+"/"+f.RelPath]; !ok {
-			return false
-		}
-	}
-	return true
-}
-
 // vfc29Served evaluates one store-gateway view: samples (with multiplicity) of the selected blocks that exist completely.
 func (e *vfc29Env) served(ctx context.Context, mem *objstore.InMemBucket, delay time.Duration) (vfcrigSamples, []string, error) {
 	metas, err := vfcrigStoreView(ctx, mem, delay)
@@ -82,7 +69,7 @@ func (e *vfc29Env) served(ctx context.Context, mem *objstore.InMemBucket, delay 
 	sel := map[ulid.ULID]*metadata.Meta{}
 	var ids []string
 	for id, m := range metas {
-		if !vfc29Complete(objs, m) {
+		if !vfcrigComplete(objs, m) {
 			ids = append(ids, id.String()+"(INCOMPLETE)")
 			continue
 		}
